@@ -82,6 +82,44 @@ func emptyNonNil(v reflect.Value) {
 	}
 }
 
+// sharePersonPointers makes one *Person reachable twice inside a contact tree (a sibling's contact points at an
+// earlier sibling): a shape programmatic construction produces and protobuf decoding never does. No cycle is created.
+func sharePersonPointers(lists ...[]*sbom.Person) bool {
+	for _, l := range lists {
+		for _, top := range l {
+			if top == nil || len(top.Contacts) < 2 {
+				continue
+			}
+			a, b := top.Contacts[0], top.Contacts[1]
+			if a == nil || b == nil || a == b {
+				continue
+			}
+			if len(a.Contacts) == 0 {
+				a.Contacts = []*sbom.Person{{Name: "shared-leaf"}}
+			}
+			b.Contacts = append([]*sbom.Person{a}, b.Contacts...)
+			return true
+		}
+	}
+	return false
+}
+
+func personLists(m proto.Message) [][]*sbom.Person {
+	switch x := m.(type) {
+	case *sbom.Node:
+		return [][]*sbom.Person{x.Suppliers, x.Originators}
+	case *sbom.Person:
+		return [][]*sbom.Person{{x}}
+	case *sbom.NodeList:
+		var out [][]*sbom.Person
+		for _, n := range x.Nodes {
+			out = append(out, n.Suppliers, n.Originators)
+		}
+		return out
+	}
+	return nil
+}
+
 // mutateAll applies every leaf mutator of a (one after the other) and reports the first that changes
 // b's snapshot. Appends within spare capacity are exercised by the "[+]" leaves.
 func mutateAll(t *rapid.T, a, b proto.Message) string {
@@ -123,6 +161,9 @@ func c12CopyProperty(t *rapid.T) {
 	}
 	if rapid.Bool().Draw(t, "spare") {
 		spareCap(reflect.ValueOf(src))
+	}
+	if rapid.IntRange(0, 2).Draw(t, "sharePtr") == 0 && sharePersonPointers(personLists(src)...) {
+		hx.Class("person_pointer_reachable_twice")
 	}
 	if rapid.IntRange(0, 2).Draw(t, "emptyNonNil") == 0 {
 		emptyNonNil(reflect.ValueOf(src))
@@ -175,6 +216,9 @@ func c12Operand(t *rapid.T, label string) *sbom.NodeList {
 	nl := hx.GenNodeList(t, label, hx.GraphOpts{WellFormed: rapid.IntRange(0, 3).Draw(t, label+".wf") > 0, NodeGen: c11Node, MaxEdges: 5})
 	if rapid.Bool().Draw(t, label+".sparecap") {
 		spareCap(reflect.ValueOf(nl))
+	}
+	if rapid.IntRange(0, 2).Draw(t, label+".sharePtr") == 0 && sharePersonPointers(personLists(nl)...) {
+		hx.Class("person_pointer_reachable_twice")
 	}
 	return nl
 }
